@@ -395,13 +395,13 @@ Lemma search_real b st icp count w c :
   Inv b -> search ceq b st icp count = SFound w c ->
   Inv (moved b w c) /\ occurs (sic st) (stext st) (entry (wl b) w) c.
 Proof.
-  intros HI. unfold search. destruct (count <=? 0) eqn:Ec; [discriminate|].
+  intros HI. unfold search. destruct (count <? 1) eqn:Ec; [discriminate|].
   pose proof (search_iter_real (wl b) st icp (Z.to_nat count) _ _ (Inv_SInv _ HI)) as H.
   destruct (search_iter ceq (wl b) st icp (Z.to_nat count) (wi b) (bdoc b)) as [[w' d']|]; [|discriminate].
   intros E; injection E as -> <-. destruct H as [(Hw & Ht & Hc) Hocc].
   split.
   - unfold Inv, moved; cbn [wl wi cur]. rewrite <- Ht. auto.
-  - apply Hocc. apply Z.leb_gt in Ec. lia.
+  - apply Hocc. apply Z.ltb_ge in Ec. lia.
 Qed.
 
 Lemma search_count b st icp k1 k2 :
@@ -413,9 +413,9 @@ Lemma search_count b st icp k1 k2 :
   end.
 Proof.
   intros HI H1 H2. unfold search.
-  destruct (k1 + k2 <=? 0) eqn:E12; [apply Z.leb_le in E12; lia|].
-  destruct (k1 <=? 0) eqn:E1; [apply Z.leb_le in E1; lia|].
-  destruct (k2 <=? 0) eqn:E2; [apply Z.leb_le in E2; lia|].
+  destruct (k1 + k2 <? 1) eqn:E12; [apply Z.ltb_lt in E12; lia|].
+  destruct (k1 <? 1) eqn:E1; [apply Z.ltb_lt in E1; lia|].
+  destruct (k2 <? 1) eqn:E2; [apply Z.ltb_lt in E2; lia|].
   replace (Z.to_nat (k1 + k2)) with (Z.to_nat k1 + Z.to_nat k2)%nat by lia.
   rewrite search_iter_add.
   pose proof (search_iter_real (wl b) st icp (Z.to_nat k1) _ _ (Inv_SInv _ HI)) as H.
@@ -431,7 +431,7 @@ Lemma search_one b st icp :
   | None => SNone
   end.
 Proof.
-  unfold search. change (1 <=? 0) with false. change (Z.to_nat 1) with 1%nat. cbn [search_iter].
+  unfold search. change (1 <? 1) with false. change (Z.to_nat 1) with 1%nat. cbn [search_iter].
   destruct (search_once ceq (wl b) st icp (wi b) (bdoc b)) as [[w d]|]; reflexivity.
 Qed.
 
@@ -455,7 +455,6 @@ Lemma search_fwd_spec b st (icp : bool) :
   | SNone =>
       (forall q, lo <= q -> ~ occurs (sic st) (stext st) here q) /\
       forall e, In e (fwd_order (len (wl b)) (wi b)) -> absent (sic st) (stext st) (entry (wl b) e)
-  | SAssert => False
   end.
 Proof.
   intros HI Hd lo here. rewrite search_one.
@@ -483,7 +482,6 @@ Lemma search_bwd_spec b st (icp : bool) :
   | SNone =>
       (forall q, occurs (sic st) (stext st) here q -> ~ q + m <= cur b) /\
       forall e, In e (bwd_order (len (wl b)) (wi b)) -> absent (sic st) (stext st) (entry (wl b) e)
-  | SAssert => False
   end.
 Proof.
   intros HI Hd here m. rewrite search_one.
@@ -539,23 +537,33 @@ Lemma apply_search_spec b st icp count :
   Inv b ->
   apply_search ceq b st icp count =
   match search ceq b st icp count with
-  | SAssert => None
-  | SNone => Some b
-  | SFound w c => Some (moved b w c)
+  | SNone => b
+  | SFound w c => moved b w c
   end.
 Proof.
-  intros HI. unfold apply_search. destruct (search ceq b st icp count) as [| |w c] eqn:E; try reflexivity.
+  intros HI. unfold apply_search. destruct (search ceq b st icp count) as [|w c] eqn:E; try reflexivity.
   destruct (search_real _ _ _ _ _ _ HI E) as [[_ Hc] _]. cbn [moved wl wi cur] in Hc.
   now rewrite set_pos_moved.
 Qed.
 
-Lemma apply_search_inv b st icp count b' :
-  Inv b -> apply_search ceq b st icp count = Some b' -> Inv b' /\ wl b' = wl b.
+Lemma apply_search_inv b st icp count :
+  Inv b -> Inv (apply_search ceq b st icp count) /\ wl (apply_search ceq b st icp count) = wl b.
 Proof.
   intros HI. rewrite (apply_search_spec _ _ _ _ HI).
-  destruct (search ceq b st icp count) as [| |w c] eqn:E; [discriminate| |].
-  - intros [= <-]. now split.
-  - intros [= <-]. split; [|reflexivity]. apply (search_real _ _ _ _ _ _ HI E).
+  destruct (search ceq b st icp count) as [|w c] eqn:E.
+  - now split.
+  - split; [|reflexivity]. apply (search_real _ _ _ _ _ _ HI E).
+Qed.
+
+(* a repeat count below 1: no search at all *)
+Lemma search_count_below_1 b st icp count :
+  count < 1 ->
+  search ceq b st icp count = SNone /\ apply_search ceq b st icp count = b /\
+  get_search_position ceq b st icp count = cur b.
+Proof.
+  intros Hc. assert (E : search ceq b st icp count = SNone).
+  { unfold search. destruct (count <? 1) eqn:E; [reflexivity|apply Z.ltb_ge in E; lia]. }
+  unfold apply_search, get_search_position. rewrite E. auto.
 Qed.
 
 Lemma moved_self b : moved b (wi b) (cur b) = b.
@@ -563,16 +571,10 @@ Proof. now destruct b. Qed.
 
 (* the preview document is the document of the buffer apply_search(include_current_position=True) produces *)
 Lemma preview_is_apply b st :
-  Inv b ->
-  match apply_search ceq b st true 1 with
-  | Some b' => bdoc b' = document_for_search ceq b st
-  | None => False
-  end.
+  Inv b -> bdoc (apply_search ceq b st true 1) = document_for_search ceq b st.
 Proof.
   intros HI. rewrite (apply_search_spec _ _ _ _ HI). unfold document_for_search.
-  destruct (search ceq b st true 1) as [| |w c] eqn:E; try reflexivity.
-  unfold search in E. change (1 <=? 0) with false in E. cbv iota in E.
-  destruct (search_iter _ _ _ _ _ _ _) as [[? ?]|] in E; discriminate.
+  destruct (search ceq b st true 1) as [|w c] eqn:E; reflexivity.
 Qed.
 
 (* ---------------------------------------------------------------------- *)
@@ -588,9 +590,8 @@ Proof.
   { apply Z.eqb_neq. destruct (field s) as [|x0 l0]; [congruence|]. rewrite len_cons. pose proof (len_nonneg l0). lia. }
   rewrite E. unfold the_state. cbn [negb andb main field ss_text ss_dir ign].
   pose proof (preview_is_apply (main s) (mkss (field s) (ss_dir s) (ign s)) HI) as H.
-  destruct (apply_search ceq (main s) (mkss (field s) (ss_dir s) (ign s)) true 1) as [b'|] eqn:Ea; [|contradiction].
-  cbn [stop_search with_main main searching]. split; [exact H|]. split; [reflexivity|].
-  apply (apply_search_inv _ _ _ _ _ HI Ea).
+  unfold stop_search, with_main. cbn [main searching]. split; [exact H|]. split; [reflexivity|].
+  apply (apply_search_inv _ _ _ _ HI).
 Qed.
 
 Lemma enter_preview s :
@@ -602,9 +603,7 @@ Proof.
   intros HI Hs Hf. destruct (accept_preview s HI Hs Hf) as (Hp & Hs' & _).
   unfold key_step. rewrite Hs. eexists. split; [reflexivity|].
   assert (Hv : vi (accept_search ceq s) = vi s).
-  { unfold accept_search. destruct (len (field s) =? 0);
-      match goal with |- context [apply_search ?c ?b ?st ?i ?k] => destruct (apply_search c b st i k) end;
-      reflexivity. }
+  { unfold accept_search. destruct (len (field s) =? 0); reflexivity. }
   unfold post. rewrite Hv, Hs'. destruct (vi s); cbn [andb negb with_main main searching]; auto.
 Qed.
 
